@@ -73,7 +73,9 @@ LEAVES = {
     "list": (list, [1, "a"], [1, "a"], [1, "a"]), "dict": (dict, {"a": 1}, {"a": 1}, {"a": 1}), "tuple": (tuple, [1, "a"], (1, "a"), [1, "a"]),
     "set": (set, [1], {1}, None), "typing.List": (typing.List, [1, "a"], [1, "a"], [1, "a"]), "typing.Dict": (typing.Dict, {"a": 1}, {"a": 1}, {"a": 1}),
     "typing.Tuple": (typing.Tuple, [1], (1,), [1]), "typing.Sequence": (typing.Sequence, None, None, None), "typing.Mapping": (typing.Mapping, None, None, None),
-    "Box[int]": (Box[int], None, None, None), "Box": (Box, None, None, None), "DBox[int]": (DBox[int], None, None, None), "DBox": (DBox, None, None, None),
+    # user generics, bare and parameterised: the TypeVar-typed position passes its value through, the routine *works*
+    "Box[int]": (Box[int], {"item": "1"}, Box("1"), {"item": "1"}), "Box": (Box, {"item": "1"}, Box("1"), {"item": "1"}),
+    "DBox[int]": (DBox[int], {"item": "1"}, DBox("1"), {"item": "1"}), "DBox": (DBox, {"item": "1"}, DBox("1"), {"item": "1"}),
     "NoHints": (NoHints, {}, NoHints(), None), "P": (P, {"x": "1"}, P(1), {"x": 1}),
     "Literal": (typing.Literal[1, "a"], "a", "a", "a"), "tuple[int,...]": (tuple[int, ...], ["1", 2], (1, 2), [1, 2]),
     "tuple[()]": (tuple[()], [], (), []), "Optional[int]": (typing.Optional[int], "5", 5, 5), "int|str": (int | str, "a", "a", "a"),
